@@ -828,6 +828,9 @@ func c12Admit(r *core.Run, p *core.Program) {
 				// replace or no input comes from the pool; and it cannot run after an eviction
 				dcs := an.DomConds(cc.If.Block())
 				skipOK := map[string]bool{"(" + an.Expr(lk.X) + " != nil)": true}
+				if len(dcs) == 0 {
+					continue
+				}
 				for _, dc := range dcs {
 					if dc.True && strings.HasSuffix(dc.Cond, "]") && strings.Contains(dc.Cond, "[") {
 						skipOK["("+dc.Cond[:strings.LastIndex(dc.Cond, "[")]+" != nil)"] = true // the per-input "from the pool" flags
@@ -863,7 +866,31 @@ func c12Admit(r *core.Run, p *core.Program) {
 						}
 						walk(c.Block())
 					}
-					if okSkip && !after {
+					// the set of transactions to replace is complete when the test runs: nothing is added to it afterwards
+					// (a test inside the loop that fills the set sees only the conflicts of earlier inputs)
+					growing := false
+					{
+						seen := map[*ssa.BasicBlock]bool{}
+						var walk func(x *ssa.BasicBlock)
+						walk = func(x *ssa.BasicBlock) {
+							for _, sc := range x.Succs {
+								if seen[sc] {
+									continue
+								}
+								seen[sc] = true
+								for _, ins := range sc.Instrs {
+									if mu, ok := ins.(*ssa.MapUpdate); ok {
+										if mt2, ok := mu.Map.Type().Underlying().(*types.Map); ok && types.Identical(mt2, mt) {
+											growing = true
+										}
+									}
+								}
+								walk(sc)
+							}
+						}
+						walk(cc.If.Block())
+					}
+					if okSkip && !after && !growing {
 						okSelf = true
 					}
 				}
